@@ -66,6 +66,7 @@ class Ctx:
 def regen_constants(ctx):
     """Re-extract constants from /repo's working tree into coq/Gen/Generated.v (only rewritten when the text changes)."""
     out = os.path.join(COQ, 'Gen', 'Generated.v')
+    os.makedirs(os.path.dirname(out), exist_ok=True)
     rc, so, se = sh([sys.executable, os.path.join(VERIF, 'tools', 'gen_constants.py'), out + '.new'], timeout=300)
     if rc != 0:
         ctx.fail('translator', 'gen_constants.py', (so + se)[-1500:])
